@@ -68,6 +68,8 @@ type OpInfo struct {
 	Sync     bool               // part of the final exchange
 	Returned iface.IPFSLog      // join result
 	Err      error
+	Refused  bool // the operation is a merge that must be refused (Err != nil expected)
+	Skipped  bool // the operation had nothing to do in this state
 }
 
 type Observer func(tb ev.TB, w *World, info *OpInfo)
@@ -84,6 +86,7 @@ type GenConfig struct {
 	WithSync    bool
 	NoRebuild   bool
 	NoSetID     bool
+	NoBadJoin   bool // leave out "joinbad": a merge that must be refused (an unsigned candidate)
 	WithLoad    bool // include "load": the replica restarts from the store (manifest / JSON heads / head entries)
 	AppendBias  int  // extra weight for appends
 }
@@ -113,6 +116,9 @@ func Gen(t *rapid.T, cfg GenConfig) Prog {
 	p.Order = rapid.SampledFrom(cfg.Orders).Draw(t, "order")
 	p.Codec = rapid.SampledFrom(cfg.Codecs).Draw(t, "codec")
 	kinds := []string{"append", "append", "append", "append", "append", "append", "join", "join", "join", "join", "selfjoin", "joinempty", "joinother"}
+	if !cfg.NoBadJoin {
+		kinds = append(kinds, "joinbad", "joinbad")
+	}
 	for i := 0; i < cfg.AppendBias; i++ {
 		kinds = append(kinds, "append")
 	}
@@ -134,6 +140,9 @@ func Gen(t *rapid.T, cfg GenConfig) Prog {
 			op.PC = rapid.SampledFrom(PointerCounts).Draw(t, "pc")
 		case "join":
 			op.B = rapid.IntRange(0, n-1).Draw(t, "b")
+		case "joinbad":
+			op.B = rapid.IntRange(0, n-1).Draw(t, "b")
+			op.Flag = rapid.IntRange(0, 15).Draw(t, "flag")
 		case "setid":
 			op.B = rapid.IntRange(0, nw-1).Draw(t, "w")
 		case "rebuild":
@@ -222,6 +231,51 @@ func (w *World) Exec(tb ev.TB, idx int, op Op, sync bool) *OpInfo {
 		if err == nil {
 			r.Model.Union(src.Model)
 			r.History = append(r.History, "j"+src.Model.Key())
+		}
+	case "joinbad":
+		// a merge that must be refused: the source log with one candidate entry stripped of its signature
+		b := mod(op.B, n)
+		src := w.Reps[b]
+		var cands []string
+		for _, h := range src.Model.Sorted() {
+			if !r.Model.Has(h) {
+				cands = append(cands, h)
+			}
+		}
+		if b == a || len(cands) == 0 {
+			info.Skipped = true
+			break
+		}
+		victim := cands[op.Flag%len(cands)]
+		var es []iface.IPFSLogEntry
+		for _, e := range src.Log.GetEntries().Slice() {
+			if e.GetHash().String() == victim {
+				c := e.Copy()
+				c.SetSig(nil)
+				es = append(es, c)
+			} else {
+				es = append(es, e)
+			}
+		}
+		var heads []iface.IPFSLogEntry
+		hs := world.SetOf(world.Hashes(src.Log.Heads()))
+		for _, e := range es {
+			if hs.Has(e.GetHash().String()) {
+				heads = append(heads, e)
+			}
+		}
+		bad, err := world.NewLog(w.Store.API(), src.Writer, LogID, w.Order, w.IO, &ipfslog.LogOptions{Entries: entry.NewOrderedMapFromEntries(es), Heads: heads})
+		if err != nil {
+			tb.Fatalf("harness: NewLog: %v", err)
+		}
+		info.Src = b
+		info.Refused = true
+		_, jerr := r.Log.Join(bad, -1)
+		info.Err = jerr
+		if jerr == nil {
+			// not refused (that is C06's business): keep the model in step with what the log did
+			r.Model.Union(src.Model)
+			r.History = append(r.History, "jb"+src.Model.Key())
 		}
 	case "selfjoin":
 		ret, err := r.Log.Join(r.Log, -1)
@@ -368,6 +422,9 @@ func (w *World) SyncAll(tb ev.TB, choices []int, obs Observer) {
 
 // MustOK fails the case when an operation that must succeed returned an error.
 func MustOK(tb ev.TB, info *OpInfo) {
+	if info.Refused {
+		return
+	}
 	if info.Err != nil {
 		tb.Fatalf("op #%d %+v returned error: %v", info.Index, info.Op, info.Err)
 	}
